@@ -88,6 +88,17 @@ def _static_scatter_extent(jpr_like: Any) -> int | None:
     return None
 
 
+
+def _keep_static_step_shape(value: ir.Value, var: Any) -> bool:
+    """A per-step scan output whose extents are all static keeps them inside the Loop body:
+    a Loop that runs zero times can only learn the trailing extents of its (empty) stacked
+    output from the body graph's declared output shape."""
+    shape = getattr(getattr(var, "aval", None), "shape", None)
+    if shape is None or not all(isinstance(d, (int, np.integer)) for d in shape):
+        return False
+    _stamp_type_and_shape(value, tuple(int(d) for d in shape))
+    return True
+
 def _dtype_enum_for_var(var: Any, enable_double: bool) -> ir.DataType | None:
     aval = getattr(var, "aval", None)
     if aval is None:
@@ -957,7 +968,8 @@ class ScanPlugin(PrimitiveLeafPlugin):
                     flush=True,
                 )
             _set_value_dtype_from_var(loop_ctx, out_val, out_var)
-            relax_value_to_rank_only(out_val)
+            if not _keep_static_step_shape(out_val, out_var):
+                relax_value_to_rank_only(out_val)
             body_outputs.append(out_val)
 
         outputs_start_no_xs = 1 + num_consts + num_carry
@@ -1555,7 +1567,8 @@ class ScanPlugin(PrimitiveLeafPlugin):
                     flush=True,
                 )
             _set_value_dtype_from_var(loop_ctx, out_val, out_var)
-            relax_value_to_rank_only(out_val)
+            if not _keep_static_step_shape(out_val, out_var):
+                relax_value_to_rank_only(out_val)
             body_outputs.append(out_val)
 
         outputs_start_with_seq = 1 + num_consts + num_carry + len(sequence_states)
